@@ -236,8 +236,15 @@ impl<'a, 'tcx> Cx<'a, 'tcx> {
             o.push(("int", J::Int(v)));
             return J::Obj(o);
         }
-        // string literals
+        // string literals / references to statics
         if let Ok(val) = c.const_.eval(tcx, self.env, c.span) {
+            if let mir::ConstValue::Scalar(rustc_middle::mir::interpret::Scalar::Ptr(ptr, _)) = val {
+                let (prov, _off) = ptr.into_raw_parts();
+                if let rustc_middle::mir::interpret::GlobalAlloc::Static(did) = tcx.global_alloc(prov.alloc_id()) {
+                    o.push(("static", J::Str(dp(tcx, did))));
+                    return J::Obj(o);
+                }
+            }
             if let ty::Ref(_, inner, _) = ty.kind() {
                 if inner.is_str() {
                     if let Some(bytes) = val.try_get_slice_bytes_for_diagnostics(tcx) {
